@@ -1,11 +1,12 @@
 """C01 — live allocations never overlap and lie inside memory the allocator owns (DESIGN.md #C01)"""
 import subjects
 
-SPEC = dict(modules=["MemVerif.Props.C01", "MemVerif.Props.C01Stack", "MemVerif.Props.C01Ord", "MemVerif.Props.C07"], gen_cfgs=("rwdi",),
+SPEC = dict(modules=["MemVerif.Props.C01", "MemVerif.Props.C01Stack", "MemVerif.Props.C01Ord", "MemVerif.Props.C01Heap", "MemVerif.Props.C07"], gen_cfgs=("rwdi",),
             assumptions=["proved: memory_pool over ALL THREE free lists - unordered, ordered, small node - (all histories incl. arrays, any environment, any configuration; Props/C01Ord: ordered list stays sorted with a valid cursor, find_pos finds every released pointer; small list: chunk ring sorted, cursors valid, chunk search finds every live node, checks never fire for a live node); memory_stack over growing/fixed sources (all histories of allocate/try_allocate/nested marker scopes: C01_stack_live_disjoint_inside); iteration regions (C07). "
                          "collections, memory_stack over static storage, static_allocator: correspondence + overlap/inside/content oracles (partial)",
                          "n * node_size of allocate_array(n) must not wrap (POp.Fits; counterexample C01_pool_allocArray_overflow_cex = finding D21)",
-                         "low-level allocators: disjointness of what malloc/mmap return is trusted (EnvOk)"])
+                         "low-level allocators: disjointness of what malloc/mmap return is trusted (EnvOk)",
+                         "pointer encoding: the unordered list is also modelled at word level (Model/HeapList: first_ + next words, insert_impl and list_search_array as loops) and proved to refine the sequence model and to write only next words of free nodes (Props/C01Heap); the harness dump - following the real next words from first_ to nullptr - is the representation predicate evaluated on the real memory; xor links of the ordered list and the chunk ring pointers are covered by the dumps only"])
 
 
 def run(ctx):
